@@ -20,4 +20,77 @@ META = {
         note=("Trusted: as C01. Claimed for the default feature set (cqueue backend). The net layer's buffered emission order (BUF_CTX flush) is covered "
               "by the kernel model of later properties, not by this check."),
         technique=_T),
+    "C14": dict(
+        text=("Lean 4 theorems about a model of Processor::incoming_upstream/_downstream, the four ModuleRef entry points (message, async wake-up, "
+              "sim-start stage, sim end) and the kernel loop with the emission buffer: for every stack, every scripted behaviour, every event kind the "
+              "call log of an event is start0 inc0? ... handler? end_{k-1} ... end0 (C14.bracket_shape), inc_i present iff no earlier element consumed, "
+              "handler skipped iff consumed, start/end exactly once in (reverse) stack order, the global log of any run is a concatenation of complete "
+              "brackets (C14.brackets_do_not_interleave), pushes are made and flushed in program order. Tied to the code by running thousands of real "
+              "des simulations with scripted elements/handlers and comparing the whole call log with the model's."),
+        design_ref="DESIGN.md §5 C14",
+        note=("Trusted: Lean kernel; axioms propext/Classical.choice/Quot.sound; hand transcription Rust->Lean (validated by the correspondence runs); "
+              "tokio polling order modelled as observed; harness, driver parser, orchestrator. Out of scope: panicking events (event_end skipped after a "
+              "non-caught handler panic), shutdown/restart, dispatch order inside the calendar queue (C01/C03)."),
+        technique=_T),
+    "C07": dict(
+        text=("Lean 4 theorems: the model of des::net::channel::Channel (busy flag, transmission_finish_time, byte-counted FIFO buffer, Drop/Queue policies, "
+              "send_message, unbusy loop with computed fuel) refines an abstract single server with a FIFO byte-bounded queue on every script of offers and unbusy "
+              "dispatches consistent with event order (C07.model_refines_spec); exactly-one-fate, no duplication/loss, busy-iff-transmitting, idle=>queue empty, FIFO/no overlap, "
+              "start-at-idle instant, accept-iff-bytes-fit (incl. limit 0), delivery-time formula and zero-jitter order are proved for all metrics, sizes and interleavings. "
+              "Tied to the code by replaying thousands of real two-module simulations (probe, is_busy, finish time, Debug queue sizes, arrival times/order) through the same definitions."),
+        design_ref="DESIGN.md §5 C07",
+        note=("Trusted: as C01; f64 rounding of calculate_busy/calculate_duration is an input (tx read from the code, checked +-1ns; jitter only range-checked); usize/SimTime overflow out of scope. "
+              "Partial: dispatch order of equal-timestamp deliveries holds only if latency > 0 or no transmission time rounds to 0 (open finding F14, witness theorem); model mirrors the code after the F5 fix."),
+        technique=_T),
+    "C16": dict(
+        text=("Lean 4 theorems: the pointer-level model of des::net::message::{Body,Message} (type-erased box pointer into an explicit ghost heap, "
+              "per-type vtable, try_cast nulling the pointer before the implicit Drop, Message wrappers, byte_len as structural recursion incl. "
+              "derive(MessageBody)) refines a value-level specification for every script (C16.model_refines_spec); cast/borrow succeed iff the requested "
+              "type is the creation type, failed casts return body/message/heap unchanged, values read/cloned/cast equal the value stored, every box is "
+              "released exactly once with no undefined access (no_double_free_no_leak, all_released_exactly_once_at_end), Message::length = 64 + declared "
+              "length, derived length = sum over the active variant's fields. Tied to the code on every run by replaying generated op histories over a "
+              "32-type family with destructor counters on real Messages and comparing every answer, value, length, channel busy time and drop count."),
+        design_ref="DESIGN.md §5 C16",
+        note=("Trusted: Lean kernel; axioms propext/Quot.sound; TypeId injectivity (Ty = type name); the hand transcription Rust->Lean and the harness's "
+              "value<->term rendering (validated by the correspondence runs); harness, driver parser, orchestrator. Out of scope: real memory semantics "
+              "of Box/raw pointers (ghost heap only), usize overflow of length sums, try_content_mut used for mutation, Debug formatting."),
+        technique=_T),
+    "C12": dict(
+        text=("Lean 4 theorems: the model of ModuleTree::add (rposition of the parent, skip of deeper entries, insert) keeps the module vector equal to the depth-first "
+              "pre-order of the declared tree with siblings in creation order, for every tree and every valid insertion order (C12.add_preserves_preorder, "
+              "built_vector_is_preorder, order_depends_only_on_sibling_order); the at_sim_start loop is the stage-major filter of that order (start_calls_stage_major, "
+              "each_declared_stage_once, stage_barrier, within_stage_vector_order), at_sim_end visits every module once (sim_end_once_each); SimBuilder::raw rejects duplicates "
+              "and orphans (duplicate_rejected, missing_parent_rejected); ObjectPath parent/name/len/From<&str> agree with repeated appended for all names without '.', "
+              "including prefix-sharing and multi-byte names (parent_name_len_appended, from_str_agrees_with_appended, distinct_paths_distinct). Tied to the code by real "
+              "simulations built through the public builder API whose builder answers, module vector, full callback log and parent/child/path lookups are compared with the "
+              "model and the declared-tree specification."),
+        design_ref="DESIGN.md §5 C12",
+        note=("Trusted: Lean kernel; axioms propext/Classical.choice/Quot.sound; hand transcription Rust->Lean (UTF-8 strings as byte lists), validated by the correspondence runs; "
+              "harness, driver, orchestrator. 'at_sim_end after the last event' and the parent()/child() lookups are checked on observed runs, not proved. Paths with empty "
+              "segments are outside the theorems' domain (model comparison only). The model mirrors /repo after the fix of SimBuilderScoped (dotted relative paths)."),
+        technique=_T),
+    "C17": dict(
+        text=("Lean 4 theorems about the model of Cfg::new (compartmentalize_map loop with swap_remove/entry/insert on ordered mappings, recursion bound proved sufficient) and "
+              "Props::update_from (wildcard branch, progressive prefix lookup, direct-prefix extraction, first-wins set): for every flat dotted-key configuration outside class F11b and every "
+              "module path the captured property names are exactly those of the segment matcher and every value belongs to a matching entry (C17.capture_eq_spec_partial, via a normal-form "
+              "invariant of the compartmentalised tree + flat-reading preservation); include order is irrelevant for every include/node script (include_order_invariant/_irrelevant); "
+              "typed slots keep their type under every access sequence (typed_slot_keeps_type). F11b (scalar entry equal to the literal prefix of a wildcard entry) is an open finding with a "
+              "decide-d witness (capture_eq_spec_witness). Tied to the code by replaying generated include/node/props/typed scripts through SimBuilder and Cfg::capture_for_into."),
+        design_ref="DESIGN.md §5 C17, §6 F6/F11/F13",
+        note=("Trusted: Lean kernel; axioms propext/Classical.choice/Quot.sound; serde_yml parsing and serde typed deserialisation; the string<->segment-list reading of dotted keys; "
+              "hand transcription Rust->Lean (validated by the correspondence runs). The model describes /repo after the fix: commits for F6, F13, F11a."),
+        technique=_T),
+    "C18": dict(
+        text=("Lean 4 theorems about a model of des_net_utils::ndl (string grammar over List Char, Def AST, transform with the dependency-ordering loop, "
+              "inheritance, generics/conformance, cluster and connection expansion) and of the des instantiation: FromStr and transform never panic for any "
+              "input and any hash-map order (C18.parse_total, parse_document_total, transform_total, load_total; key lemmas: the ordering loop's fuel suffices "
+              "and yields a dependency-respecting order, under which every archetype lookup succeeds), Display/FromStr round trips, and the built simulation has "
+              "exactly the denoted modules, symbols and gate clusters (instantiate_modules_gates_exact). Tied to the code by replaying thousands of generated and "
+              "mutated descriptions through the real FromStr/serde_yml/transform/nodes_from_ndl and comparing Ok/Err(kind,payload,span)/panic, the elaborated "
+              "tree, and every module/gate/connection slot/channel metric with the model and with an independently written top-down denotation."),
+        design_ref="DESIGN.md §5 C18",
+        note=("Models the code with the three F7 repairs applied. Not proved, checked per case only: transform = top-down denotation; connection slots of "
+              "instantiate = denotation (partial w.r.t. the 'no more and no fewer connections' clause). Trusted: YAML layer, f64<->ms rendering, names without '.', "
+              "hash-order-dependent descriptions compared weakly."),
+        technique=_T),
 }
